@@ -91,6 +91,10 @@ def schemata():
         S.append((part, 's :- not not &tel { a : q(X), d(X) }.\nu :- not not &tel { a : d(X), not q(X) }.',
                   's :- not not &tel { (q(1) -> a) & (q(2) -> a) }.\nu :- not not &tel { (~ q(1) -> a) & (~ q(2) -> a) }.'))
         S.append((part, 's :- not &tel { > a : q(X) ; a : not q(X), d(X) }.', 's :- not &tel { (q(1) -> > a) & (q(2) -> > a) & (~ q(1) -> a) & (~ q(2) -> a) }.'))
+        # conditions of two or more literals none of which is decided by the grounder
+        S.append((part, 's :- not &tel { > a : q(X), not q(3-X) }.', 's :- not &tel { ((q(1) & ~ q(2)) -> > a) & ((q(2) & ~ q(1)) -> > a) }.'))
+        S.append((part, ':- not &tel { q(X) : q(3-X), a }, d(X).', ':- not &tel { (q(2) & a) -> q(1) }.\n:- not &tel { (q(1) & a) -> q(2) }.'))
+        S.append((part, 's :- not not &del { &true .>? a : q(X), not a }.', 's :- not not &tel { ((q(1) & ~ a) -> > a) & ((q(2) & ~ a) -> > a) }.'))
     for part in ('always', 'initial', 'dynamic'):
         rule(part, '&tel { > p(X) } :- q(X).')
         rule(part, '&tel { p(X) | > r(X) } :- q(X), not a.')
